@@ -217,6 +217,8 @@ def run_c_client(v, behs, ev):
             viol("c-extract-content-differs", names=bad, unexpected=extra)
             continue
         total["extracted"] += 1
+        if "0" in xl.get("rnull", ["0"]):
+            viol("bad-handle-accepted", call="reader_add_private_key_null")
         if xl.get("again") == ["0"] or xl.get("null") == ["0"]:
             viol("bad-handle-accepted", call="extract_again" if xl.get("again") == ["0"] else "extract_null")
         if xl.get("info", ["1"])[0] != "0" or xl["info"][1:] != ["1", "3"]:
